@@ -84,7 +84,7 @@ func randPAT(r *rand.Rand, n int) absPAT {
 		used[pn] = true
 		pid := r.Intn(8192)
 		if r.Intn(4) == 0 {
-			pid = []int{0x10, 0xff, 0x100, 0x1ffe, 0x1fff, 0x1000}[r.Intn(6)]
+			pid = []int{0x10, 0xff, 0x100, 0x1ffe, 0x1fff, 0x1000, 0, 0, 1}[r.Intn(9)] // (a program may name PID 0 or 1: the map says what it says)
 		}
 		p.Entries = append(p.Entries, [2]int{pn, pid})
 	}
